@@ -12,8 +12,10 @@ RULE = ("Generated point arrays N in [0,80], d in [1,4] of six kinds (uniform fl
         "case) x 1-4 queries (query point on a data point / inside / outside the bounding box / midpoint of two data points, "
         "k in [1,N+3], radius >=0 incl. 0 and the exact distance to a data point). The build runs under a split counter "
         "(termination certificate), the leaves are compared with range(N), every query with a brute-force scan (integer "
-        "arithmetic when all coordinates are dyadic). non-trivial = N > leaf size (the tree has an inner node) and some query "
-        "has k>1 or r>0; distinct = distinct realised (points, parameters, queries).")
+        "arithmetic when all coordinates are dyadic). Two sub-checks share the generator: 'queries' (build, then kNN + radius "
+        "queries; a case whose build diverges is discarded there) and 'build' (termination certificate + leaf partition, no "
+        "queries). non-trivial = N > leaf size (the tree has an inner node) and, for 'queries', some query has k>1 or r>0; "
+        "distinct = distinct realised (points, parameters, queries).")
 ASSUMPTIONS = ["coordinates are finite floats of magnitude <= 1000 (no overflow/underflow of squared distances is probed)",
                "point arrays have shape (N,d) with d>=1 (N=0 is given as an empty (0,d) array)",
                "max_leaf_size >= 1, k >= 1, 0 <= r < inf",
@@ -424,8 +426,8 @@ def run_case(case, ctx, mode):
 
 
 SUBCHECKS = [
-    SubCheck("queries", kd_case(True), fn_queries, quick=12000, thorough=40000),
-    SubCheck("build", kd_case(False), fn_build, quick=5000, thorough=20000),
+    SubCheck("queries", kd_case(True), fn_queries, quick=8000, thorough=40000),
+    SubCheck("build", kd_case(False), fn_build, quick=3000, thorough=20000),
 ]
 
 MATCHERS = {}
